@@ -795,6 +795,9 @@ def _selection_sites(prog, chk, R):
                 l0, r0 = SX.strip(l), SX.strip(r)
                 if SX.is_node(l0) and l0.get('k') == 'ref' and SX.is_node(r0) and r0.get('k') == 'bool':
                     flags.setdefault(l0['id'], []).append((n, r0['v']))
+                if SX.is_node(l0) and l0.get('k') == 'member' and l0.get('q') and SX.is_node(SX.strip(l0.get('base'))) and SX.strip(l0['base']).get('k') == 'ref' and \
+                        SX.is_node(r0) and r0.get('k') == 'bool':
+                    flags.setdefault(('field', l0['q']), []).append((n, r0['v']))       # the flag is a field of a small result record
             eq = [e for e in g.nodes if e.kind == 'cond' and (lambda cp: cp and cp[0] == '==' and {SX.show(cp[1]), SX.show(cp[2])} == {cost, bv['name']})(
                 SX.cmp_parts(e.e) if SX.is_node(e.e) else None) and g.dominates(tminus, e)]
             tie = None
@@ -807,7 +810,8 @@ def _selection_sites(prog, chk, R):
             if tie is not None:
                 after = g.reachable([c]) - (g.reachable([c]) & g.reachable([c], forward=False))
                 for d in g.nodes:
-                    if d.id in after and d.kind in ('cond', 'return') and isinstance(d.e, dict) and _mentions(d.e, lambda x: x.get('k') == 'ref' and x.get('id') == tie):
+                    if d.id in after and d.kind in ('cond', 'return') and isinstance(d.e, dict) and _mentions(d.e, lambda x: (x.get('k') == 'ref' and x.get('id') == tie) or (
+                            isinstance(tie, tuple) and x.get('k') == 'member' and x.get('q') == tie[1])):
                         used = True
             chk.ob('R08.4', f, c.ln or f.ln, bool(upd) and bool(eq) and tie is not None and used,
                    'selection takes the unique minimum: `<` updates the best cost and clears the tie flag, `==` sets it, and the flag decides the outcome afterwards '
